@@ -203,7 +203,7 @@ def _try(spec, kind, c, pieces, ref, cls_inst):
     for cname, cd in spec["comps"].items():
       for sb in cd["subs"]:
         ccd = spec["comps"][(sb.get("cls_list") or [sb["cls"]])[0]]
-        base = [["a", sb["name"]]] + ([["i", 0]] if sb["dims"] else [])
+        base = [["a", sb["name"]]] + [["i", 0] for _ in sb["dims"]]
         want = "wire" if kind != "write_child_outport" else "out"
         sgs = [s_ for s_ in ccd["signals"] if s_["kind"] == want and isinstance(s_["type"], int)]
         if not sgs:
@@ -222,7 +222,7 @@ def _try(spec, kind, c, pieces, ref, cls_inst):
     # rules that apply to a wire driver): own InPort from inside (Type 5 / top: the port is itself a writer),
     # child's OutPort or Wire from the parent (Type 7), anything two levels down (Type 9)
     def sub_path(sb):
-      return [["a", sb["name"]]] + ([["i", 0]] if sb["dims"] else [])
+      return [["a", sb["name"]]] + [["i", 0] for _ in sb["dims"]]
 
     def sub_cls(sb):
       return (sb.get("cls_list") or [sb["cls"]])[0]
